@@ -33,7 +33,7 @@ D = datetime.datetime
 NAMES = ['a', 'b', 'c', 'd']
 # column names that are also parameter names of dictable.__init__: legal keys of a dict of columns, of records, of
 # d[key] = value and targets of relabel - and swallowed wherever the code expands the columns into keywords
-RNAMES = ['data', 'columns', 'key']      # `key`: Dict.__call__ offers every callable `key = <name of the new column>` as a default
+RNAMES = ['data', 'columns', 'key', 'self']      # `self`: the first parameter of every method - a column like any other (review 4 v1-A); `key`: Dict.__call__ offers every callable `key = <name of the new column>` as a default
 CELLS = [None, None, 0, 1, 2, 3, -1, 7, 1.0, 2.5, -0.25, 0.5, 'x', 'y', 'zz', '', D(2020, 1, 1), D(2021, 6, 30, 12)]
 KEYS = [1.5, 2.5, -0.25, None, D(2020, 1, 1), D(2021, 6, 30, 12)]      # column keys that are not strings (1.0 is the dict key 1 / True, NaN keys go by identity: left out)
 
@@ -502,6 +502,9 @@ def g_new(S, dst=None, allow_bad=True):
     if r < 0.35:        # keyword columns with scalar / length-1 broadcast
         d = {}
         m = n
+        if cols and rng.random() < 0.12:
+            cols = cols[:-1] + ['self']      # dictable(self = [1, 2]): a keyword column like any other, not the constructor's own first parameter
+            S.tags.add('self-column')
         for c in cols:
             d[c], _ = S.fit(n)
         if cols and all(not isinstance(v, (list, tuple)) or len(v) == 1 for v in d.values()):
